@@ -23,7 +23,7 @@ BUILD = os.path.join(VERIF, "build")
 NCPU = os.cpu_count() or 4
 
 CXX = os.environ.get("VERIF_CXX", "g++")
-BASE_FLAGS = ["-std=c++17", "-pthread", "-fno-access-control", "-DQUILL_VERIF=1",
+BASE_FLAGS = ["-std=c++17", "-pthread", "-fno-access-control",
               "-I" + INCLUDE, "-I" + os.path.join(VERIF, "engines", "common"), "-w"]
 
 
